@@ -9,7 +9,7 @@ scns = slotcheck.scenarios(rng, 60)
 traces = hg.run_driver("engine", scns)
 items, mut = [], {}
 def add(ev, kind):
-    i = len(items); items.append({"id": i, "prog": {}, "ev": ev}); mut[i] = kind
+    i = len(items); items.append({"id": i, "prog": {"end": 99, "own": "all"}, "ev": ev}); mut[i] = kind
 for tr in traces:
     if isinstance(tr, dict):
         continue
